@@ -576,10 +576,13 @@ def rule_emit_guard(ctx):
                     want = (('field', 'zmin', ('this',)), ('field', 'zmax', ('this',)), ('deref', IT))
                     for (b, lab) in g.transitive_control_deps(pos[0]):
                         c = g.cond(b)
-                        if not c or lab is not True:
+                        if not c or not isinstance(lab, bool):
                             continue
-                        # the condition (possibly a conjunction) must imply box_zcontains(zmin, zmax, *it)
+                        # the condition (possibly a conjunction) must imply box_zcontains(zmin, zmax, *it); on the false edge it is
+                        # the negated condition that must (`if (!box_zcontains(..)) advance(); else p = ...`)
                         form_ = _bool_formula(f, c)
+                        if lab is False:
+                            form_ = ('!', form_)
                         for a in _atoms(form_):
                             at = f.term(a, inline=False)
                             if at[0] == 'call' and at[1] == MD + '::box_zcontains':
